@@ -1,8 +1,8 @@
 CONSTANTS
   MaxOps = 5
-  MaxReq = 3
+  MaxReq = 1
   TwoStep = FALSE
-  Hold = FALSE
+  Hold = TRUE
   Free = FALSE
 SPECIFICATION Spec
 INVARIANT Emit
